@@ -82,7 +82,32 @@ def run(repo: Repo, chk: Check, thorough: bool = False) -> None:
         # `V - c` below an index already evaluated successfully on every path
         idx = sub.slice
         why = None
-        if isinstance(idx, ast.BinOp) and isinstance(idx.op, ast.Sub) and isinstance(idx.left, ast.Name) and \
+        # (a) the index variable of `for V in range(a, len(S))`: a <= V < len(S) inside the loop - and after it, when the loop's else clause leaves
+        # the function (the code after the loop is only reached through `break`)
+        rng = {}
+        for lp_ in f.walk():
+            if isinstance(lp_, ast.For) and isinstance(lp_.target, ast.Name) and isinstance(lp_.iter, ast.Call) and call_name(lp_.iter) == 'range' and \
+                    len(lp_.iter.args) == 2 and isinstance(lp_.iter.args[0], ast.Constant) and isinstance(lp_.iter.args[0].value, int) and \
+                    lp_.iter.args[0].value >= 0 and norm(lp_.iter.args[1]) == f'len({sub.value.id})':  # type: ignore[attr-defined]
+                inside = any(x is sub for st in lp_.body for x in ast.walk(st))
+                after_ok = bool(lp_.orelse) and isinstance(lp_.orelse[-1], (ast.Raise, ast.Return)) and cfg.dominates(lp_, cfg.stmt_of(sub), no_exc=True)
+                rebound = any(isinstance(a_, (ast.Assign, ast.AugAssign)) and any(isinstance(t_, ast.Name) and t_.id == lp_.target.id
+                                                                              for t_ in (a_.targets if isinstance(a_, ast.Assign) else [a_.target])) for a_ in f.walk())
+                if (inside or after_ok) and not rebound:
+                    rng[lp_.target.id] = lp_.iter.args[0].value
+        if isinstance(idx, ast.Name) and idx.id in rng:
+            why = f'{idx.id} comes from range({rng[idx.id]}, len({sub.value.id})): in bounds'  # type: ignore[attr-defined]
+        if isinstance(idx, ast.BinOp) and isinstance(idx.op, ast.Sub) and isinstance(idx.left, ast.Name) and idx.left.id in rng and \
+                isinstance(idx.right, ast.Constant) and isinstance(idx.right.value, int) and 0 <= idx.right.value <= rng[idx.left.id]:
+            why = f'{rng[idx.left.id]} <= {idx.left.id} < len({sub.value.id}), so 0 <= {norm(idx)} < len'  # type: ignore[attr-defined]
+        # (b) `S[E]` under the fact `E < len(S)` (either spelling) with E = V + c, V >= 0
+        if isinstance(idx, ast.BinOp) and isinstance(idx.op, ast.Add) and isinstance(idx.left, ast.Name) and idx.left.id in rng and \
+                isinstance(idx.right, ast.Constant) and isinstance(idx.right.value, int) and idx.right.value >= 0:
+            for t_, pol_ in cfg.dominating_tests(cfg.stmt_of(sub)):
+                if pol_ and isinstance(t_, ast.Compare) and len(t_.ops) == 1 and isinstance(t_.ops[0], ast.Lt) and norm(t_.left) == norm(idx) and \
+                        norm(t_.comparators[0]) == f'len({sub.value.id})':  # type: ignore[attr-defined]
+                    why = f'dominated by `{norm(t_)}`'
+        if why is None and isinstance(idx, ast.BinOp) and isinstance(idx.op, ast.Sub) and isinstance(idx.left, ast.Name) and \
                 isinstance(idx.right, ast.Constant) and isinstance(idx.right.value, int) and idx.right.value >= 0:
             v, c = idx.left.id, idx.right.value
             inits = [n for n in f.walk() if isinstance(n, ast.Assign) and any(isinstance(t, ast.Name) and t.id == v for t in n.targets)]
